@@ -95,7 +95,14 @@ class LoopGen:
                 # buffer rotation: the loop carries the buffer of the previous iteration, allocates a new one, frees the old
                 self.tag += 4
                 lb, ub, st = self.bound(ivs)
-                out.append({"k": "rot", "iv": self.fresh("i"), "lb": lb, "ub": ub, "step": st, "tag": self.tag, "n": self.fresh("r")[2:]})
+                node = {"k": "rot", "iv": self.fresh("i"), "lb": lb, "ub": ub, "step": st, "tag": self.tag, "n": self.fresh("r")[2:]}
+                via = r.choice(["plain", "plain", "if", "cast"])
+                if via != "plain":
+                    # "if": a new buffer is only taken in some iterations (the conditional yields the new or the previous one);
+                    # "cast": the new buffer is handed on through a memref.cast
+                    node["via"] = via
+                    node["b"] = r.choice(["%c1", "%c2", "%c4"])
+                out.append(node)
                 continue
             k = r.choices(["op", "for", "alloc", "subview", "if", "cnt"], [3, 2 if depth < p["max_depth"] else 0, 2 if p["allocs"] else 0, 1 if p["allocs"] else 0, (1 if p.get("ifs") and depth < p["max_depth"] and not p["perfect"] else 0), 2 if p.get("counter") else 0])[0]
             if k == "if":
@@ -211,10 +218,28 @@ def emit(ast) -> str:
                 n_, t_ = s["n"], s["tag"]
                 e(ind, f'%ri{n_} = memref.alloc(%c2, %c2) {{alignment = 64 : i64, vsite = {t_} : i64}} : {TB}')
                 e(ind, f'%rr{n_} = scf.for {s["iv"]} = {s["lb"]} to {s["ub"]} step {s["step"]} iter_args(%rp{n_} = %ri{n_}) -> ({TB}) {{')
-                e(ind + 1, f'%rn{n_} = memref.alloc(%c2, %c2) {{alignment = 64 : i64, vsite = {t_ - 1} : i64}} : {TB}')
-                e(ind + 1, f'"test.op"(%rp{n_}, %rn{n_}) {{vtag = {t_ - 2} : i64}} : ({TB}, {TB}) -> ()')
-                e(ind + 1, f"memref.dealloc %rp{n_} : {TB}")
-                e(ind + 1, f"scf.yield %rn{n_} : {TB}")
+                if s.get("via") == "if":
+                    e(ind + 1, f'%rc{n_} = arith.cmpi slt, {s["iv"]}, {s["b"]} : index')
+                    e(ind + 1, f"%rn{n_} = scf.if %rc{n_} -> ({TB}) {{")
+                    e(ind + 2, f'%ra{n_} = memref.alloc(%c2, %c2) {{alignment = 64 : i64, vsite = {t_ - 1} : i64}} : {TB}')
+                    e(ind + 2, f'"test.op"(%rp{n_}, %ra{n_}) {{vtag = {t_ - 2} : i64}} : ({TB}, {TB}) -> ()')
+                    e(ind + 2, f"memref.dealloc %rp{n_} : {TB}")
+                    e(ind + 2, f"scf.yield %ra{n_} : {TB}")
+                    e(ind + 1, "} else {")
+                    e(ind + 2, f"scf.yield %rp{n_} : {TB}")
+                    e(ind + 1, "}")
+                    e(ind + 1, f"scf.yield %rn{n_} : {TB}")
+                elif s.get("via") == "cast":
+                    e(ind + 1, f'%ra{n_} = memref.alloc(%c2, %c2) {{alignment = 64 : i64, vsite = {t_ - 1} : i64}} : {TB}')
+                    e(ind + 1, f'%rn{n_} = "memref.cast"(%ra{n_}) : ({TB}) -> {TB}')
+                    e(ind + 1, f'"test.op"(%rp{n_}, %rn{n_}) {{vtag = {t_ - 2} : i64}} : ({TB}, {TB}) -> ()')
+                    e(ind + 1, f"memref.dealloc %rp{n_} : {TB}")
+                    e(ind + 1, f"scf.yield %rn{n_} : {TB}")
+                else:
+                    e(ind + 1, f'%rn{n_} = memref.alloc(%c2, %c2) {{alignment = 64 : i64, vsite = {t_ - 1} : i64}} : {TB}')
+                    e(ind + 1, f'"test.op"(%rp{n_}, %rn{n_}) {{vtag = {t_ - 2} : i64}} : ({TB}, {TB}) -> ()')
+                    e(ind + 1, f"memref.dealloc %rp{n_} : {TB}")
+                    e(ind + 1, f"scf.yield %rn{n_} : {TB}")
                 e(ind, "}")
                 e(ind, f'"test.op"(%rr{n_}) {{vtag = {t_ - 3} : i64}} : ({TB}) -> ()')
                 e(ind, f"memref.dealloc %rr{n_} : {TB}")
